@@ -8,6 +8,9 @@ The spec column is computed from the properties' own wording, not from the handl
   `specScan` below share no code with `getK`/`scanLoop`);
 * C18: a commit or a prewrite naming a key that carries a rollback record of that transaction must fail;
   `inv` counts committed records of one key with overlapping [start, commit] (must be 0);
+* maintenance ops (`rotate`, `flush`, `compact l0move|keep|drain`) move the physical records
+  (`Perc/Phys.lean` over `Lsm/Model.lean`); the spec does not look at them: what a key reports is
+  independent of where its records sit;
 * C19: a ghost lock per key driven only by the request/response history (set by a successful
   prewrite, cleared by commit/rollback/resolve/expiry of *that* transaction), the TTL rule and the
   min-commit rule in unbounded arithmetic.
@@ -17,9 +20,9 @@ follows the code on them, but the keys they name leave the domain (`St.outside`)
 column claims nothing about those keys afterwards.  Nothing is relaxed for any other key.
 -/
 import Driver.Lib
-import NoKVModel.Perc.Model
+import NoKVModel.Perc.Phys
 
-open NoKV NoKV.Perc Driver
+open NoKV NoKV.Perc NoKV.Perc.Phys Driver
 
 inductive Ghost where
   | unknown
@@ -30,13 +33,19 @@ inductive Ghost where
 structure St where
   c : PercCfg := PercCfg.good
   prop : String := "all"
-  s : Store := Store.empty
+  /-- LSM decisions (facts `lsm.*`, `merge.eqKeeps`, shared with the lsm engine) -/
+  lc : Lsm.Cfg := Lsm.Cfg.good
+  /-- the physical store: every record of the three column families in its memtable / table -/
+  ls : Lsm.St := {}
   keys : List Bytes := []          -- ascending, distinct: every key a request has named
   ghost : List (Bytes × Ghost) := []
   /-- keys on which a request outside the properties' domain was sent (a commit / resolve-commit
   whose commit ts is not above its start ts, `Req.WF` of the theorems): from then on the three
   properties claim nothing about these keys, the spec column answers `*` for them. -/
   outside : List Bytes := []
+
+/-- the per-key state the handlers see: read back through the code's read paths -/
+def St.s (st : St) : Store := view st.lc st.ls
 
 def insKey (k : Bytes) : List Bytes → List Bytes
   | [] => [k]
@@ -159,8 +168,38 @@ def setCfg (st : St) (kv : String) : Option St :=
   | [k, v] =>
     let b (f : Bool → PercCfg) : Option St := do let x ← boolOfString? v; pure { st with c := f x }
     let o (f : CmpOp → PercCfg) : Option St := do let x ← CmpOp.ofString? v; pure { st with c := f x }
+    let lsm (f : Lsm.Cfg) : Option St := some { st with lc := f }
+    let dir? : Option Lsm.Dir := if v == "oldestFirst" then some .oldestFirst else if v == "newestFirst" then some .newestFirst else none
     match k with
     | "prop" => some { st with prop := v }
+    | "lsm.l0SearchDir" => do let d ← dir?; lsm { st.lc with l0SearchDir := d }
+    | "lsm.tieRule" => do let x ← CmpOp.ofString? v; lsm { st.lc with tieRule := x }
+    | "lsm.crossPick" =>
+        if v == "firstHit" then lsm { st.lc with crossPick := .firstHit }
+        else if v == "maxVersion" then lsm { st.lc with crossPick := .maxVersion } else none
+    | "lsm.levelOrder" =>
+        if v == "ingestFirst" then lsm { st.lc with levelOrder := .ingestFirst }
+        else if v == "mainFirst" then lsm { st.lc with levelOrder := .mainFirst } else none
+    | "lsm.ingestOrder" =>
+        if v == "minKeyDesc" then lsm { st.lc with ingestOrder := .minKeyDesc }
+        else if v == "recency" then lsm { st.lc with ingestOrder := .recency } else none
+    | "lsm.immOrder" => do let d ← dir?; lsm { st.lc with immOrder := d }
+    | "merge.eqKeeps" =>
+        if v == "left" then lsm { st.lc with mergeKeeps := .left }
+        else if v == "right" then lsm { st.lc with mergeKeeps := .right } else none
+    | "lsm.compactTopOrder" =>
+        if v == "reversed" then lsm { st.lc with compactTopOrder := .reversed }
+        else if v == "forward" then lsm { st.lc with compactTopOrder := .forward } else none
+    | "lsm.overlapRightKey" =>
+        if v == "maxKey" then lsm { st.lc with overlapRightKey := .maxKey }
+        else if v == "minKey" then lsm { st.lc with overlapRightKey := .minKey } else none
+    | "lsm.zeroVersion" =>
+        if v == "found" then lsm { st.lc with zeroVersionFound := true }
+        else if v == "lost" then lsm { st.lc with zeroVersionFound := false } else none
+    | "lsm.ingestScanStop" => if v == "prefixMax" then some st else none
+    | "lsm.compactSplitRule" => if v == "userKeyBoundary" then some st else none
+    | "db.plainKeyLimit" => do let x ← boolOfString? v; lsm { st.lc with plainKeyLimit := x }
+    | "db.maxKeySize" => some st
     | "get.skipsRollback" => b fun x => { st.c with getSkipsRollback := x }
     | "get.skipsLock" => b fun x => { st.c with getSkipsLock := x }
     | "scan.skipsRollback" => b fun x => { st.c with scanSkipsRollback := x }
@@ -188,6 +227,9 @@ def markOutside (st : St) (start ct : Nat) (keys : List Bytes) : St :=
   if ct ≤ start then { st with outside := keys.filter (· ≠ []) ++ st.outside } else st
 
 /-! ### dump -/
+
+def shapeStr (s : Lsm.St) : String :=
+  s!"imm={s.imms.length} l0={s.l0.length} ing={s.ing.length} main={s.main.length}"
 
 def dumpStr (st : St) : String :=
   let ds := st.keys.flatMap fun k =>
@@ -236,8 +278,8 @@ def step (st : St) (toks : List String) : St × String :=
       -- C18: a key of this request carries a rollback record of this transaction ⇒ it must not be locked again
       let rolledBack := ms.any fun m => m.key ≠ [] && m.op ≠ .other && !isOutside st m.key &&
         (st.s m.key).writes.any fun w => w.start = start && w.kind == .rollback
-      let r := prewrite st.c h st.s ms
-      let st := addKeys { st with s := r.1 } (ms.map (·.key))
+      let r := prewritePhys st.c st.lc h st.ls ms
+      let st := addKeys { st with ls := r.1 } (ms.map (·.key))
       let st := ghostAfterPrewrite st h ms r.2
       let out := if r.2.isEmpty then "ok" else "err:" ++ ";".intercalate (r.2.map errStr)
       (st, out ++ "\t" ++ (if wants st "C18" && rolledBack then "err:*" else "*"))
@@ -255,7 +297,7 @@ def step (st : St) (toks : List String) : St × String :=
       let malformed := decide (ct ≤ start)
       let st := markOutside st start ct ks
       let r := commit st.c start ct st.s ks
-      let st := addKeys { st with s := r.1 } ks
+      let st := addKeys { st with ls := applyPhys st.c st.lc st.ls r.1 ks } ks
       let st := ghostAfterEnd st start ks r.2.isNone true
       let spec := if !malformed && ((wants st "C18" && rolledBack) || (wants st "C19" && belowMin)) then "err:*" else "*"
       (st, optErrStr r.2 ++ "\t" ++ spec)
@@ -264,7 +306,7 @@ def step (st : St) (toks : List String) : St × String :=
     match natOf? start, parseKeys? keys with
     | some start, some ks =>
       let r := batchRollback st.c start st.s ks
-      let st := addKeys { st with s := r.1 } ks
+      let st := addKeys { st with ls := applyPhys st.c st.lc st.ls r.1 ks } ks
       let st := ghostAfterEnd st start ks r.2.isNone false
       (st, optErrStr r.2 ++ "\t*")
     | _, _ => (st, "bad-op")
@@ -273,7 +315,7 @@ def step (st : St) (toks : List String) : St × String :=
     | some start, some ct, some ks =>
       let st := if ct = 0 then st else markOutside st start ct ks
       let r := resolveLock st.c start ct st.s ks 0
-      let st := addKeys { st with s := r.1 } ks
+      let st := addKeys { st with ls := applyPhys st.c st.lc st.ls r.1 ks } ks
       let st := ghostAfterEnd st start ks r.2.2.isNone false
       (st, optErrStr r.2.2 ++ s!":n={r.2.1}" ++ "\t*")
     | _, _, _ => (st, "bad-op")
@@ -283,7 +325,7 @@ def step (st : St) (toks : List String) : St × String :=
       let q : CsReq := ⟨primary, lockTs, cur, rbne ≠ 0, caller⟩
       let g := ghostOf st primary
       let r := checkTxnStatus st.c q st.s
-      let st := addKeys { st with s := r.1 } [primary]
+      let st := addKeys { st with ls := applyPhys st.c st.lc st.ls r.1 [primary] } [primary]
       let resp := r.2
       let out := s!"cs:{match resp.err with | some e => errStr e | none => "-"}:{resp.ttl}:{resp.commitVersion}:{resp.action}"
       -- C19: the transaction may be rolled back only when ttl ≠ 0 and current ≥ start + ttl (no wrap)
@@ -333,6 +375,22 @@ def step (st : St) (toks : List String) : St × String :=
       (st, out ++ "\t" ++ spec)
     | none => (st, "bad-op")
   | ["dump"] => (st, dumpStr st ++ "\t*")
+  -- maintenance (same reply format as the lsm engine's driver)
+  | ["rotate"] => let s := Lsm.rotate st.ls; ({ st with ls := s }, "ok " ++ shapeStr s ++ "\t*")
+  | ["flush"] =>
+    let s := Lsm.flush st.ls
+    ({ st with ls := s }, (if st.ls.imms.isEmpty then "none " else "ok ") ++ shapeStr s ++ "\t*")
+  | ["compact", kind] =>
+    let r := match kind with
+      | "l0move" => some (Lsm.l0move st.lc st.ls)
+      | "keep" => some (Lsm.keep st.lc st.ls)
+      | "drain" => some (Lsm.drain st.lc st.ls)
+      | _ => none
+    match r with
+    | some (s, .done) => ({ st with ls := s }, "ok " ++ shapeStr s ++ "\t*")
+    | some (s, .nothing) => ({ st with ls := s }, "nothing " ++ shapeStr s ++ "\t*")
+    | some (_, .panic) => (st, "panic\t*")
+    | none => (st, "bad-op")
   | ["inv"] =>
     let n := (st.keys.map fun k => overlapsOfKey (st.s k).writes).foldl (· + ·) 0
     (st, s!"overlap={n}" ++ "\t" ++ (if wants st "C18" && st.outside.isEmpty then "overlap=0" else "*"))
